@@ -153,6 +153,13 @@ static bool loop_once(int t)
     return true;
 }
 
+/* one loop step in the middle of a script: never sleeps */
+static void loop_step(int t)
+{
+    if (loop_ready(g_mgr[t]))
+        loop_once(t);
+}
+
 static void producer(void *arg)
 {
     (void)arg;
@@ -187,7 +194,7 @@ static void producer(void *arg)
             g_flushed_upto = g_sent;
             break;
         case 'l': /* let the loop run one step mid-script */
-            loop_once(0);
+            loop_step(0);
             break;
         case 'r':
             upipe_release(g_qsink);
